@@ -1,9 +1,32 @@
 #![doc = include_str!("../README.md")]
 
+#[cfg(feature = "circ_verif")]
+macro_rules! vpoint {
+    ($class:ident, $addr:expr) => {
+        $crate::verif::point($crate::verif::Class::$class, $addr as usize)
+    };
+}
+#[cfg(not(feature = "circ_verif"))]
+macro_rules! vpoint {
+    ($($t:tt)*) => {};
+}
+#[cfg(feature = "circ_verif")]
+macro_rules! vevent {
+    ($($t:tt)*) => {
+        $crate::verif::event($crate::verif::Event::$($t)*)
+    };
+}
+#[cfg(not(feature = "circ_verif"))]
+macro_rules! vevent {
+    ($($t:tt)*) => {};
+}
+
 pub(crate) mod ebr_impl;
 mod strong;
 mod utils;
 mod weak;
+#[cfg(feature = "circ_verif")]
+pub mod verif;
 
 pub use ebr_impl::{cs, Guard};
 pub use strong::*;
